@@ -386,27 +386,37 @@ class VCGen:
 
     def wf_facts(s, v, t, depth=0):
         """list lengths are non-negative (a fact about Python lists the datatype encoding does not carry)"""
+        out = s._wf_facts(v, t, depth)
+        if depth == 0:
+            keep = s.__dict__.setdefault('_wf_alive', [])
+            ids = s.__dict__.setdefault('_wf_ids', set())
+            for f in out:
+                keep.append(f)          # kept alive so that the ids stay unique
+                ids.add(f.get_id())
+        return out
+
+    def _wf_facts(s, v, t, depth=0):
         out = []
         if t.k == 'list':
             out.append(L_len(v, t) >= 0)
             if t.a[0].k in ('list', 'tup', 'opt') and depth < 2:
                 k = Int(f'k!w{next(Ty._fresh)}')
-                inner = s.wf_facts(L_arr(v, t)[k], t.a[0], depth + 1)
+                inner = s._wf_facts(L_arr(v, t)[k], t.a[0], depth + 1)
                 if inner:
                     out.append(ForAll([k], And(*inner)))
         elif t.k == 'tup':
             for i, ti in enumerate(t.a):
-                out += s.wf_facts(tup_get(v, t, i), ti, depth + 1)
+                out += s._wf_facts(tup_get(v, t, i), ti, depth + 1)
         elif t.k == 'opt':
-            out += s.wf_facts(Ty.S(t).val(v), t.a[0], depth + 1)
+            out += s._wf_facts(Ty.S(t).val(v), t.a[0], depth + 1)
         elif t.k == 'arr':
             k = Const(f'k!w{next(Ty._fresh)}', sort(t.a[0]))
-            inner = s.wf_facts(v[k], t.a[1], depth + 1)
+            inner = s._wf_facts(v[k], t.a[1], depth + 1)
             if inner:
                 out.append(ForAll([k], And(*inner)))
         elif t.k == 'dict':
             k = Const(f'k!w{next(Ty._fresh)}', sort(t.a[0]))
-            inner = s.wf_facts(Ty.S(t).val(v)[k], t.a[1], depth + 1)
+            inner = s._wf_facts(Ty.S(t).val(v)[k], t.a[1], depth + 1)
             if inner:
                 out.append(ForAll([k], And(*inner)))
         return out
@@ -1931,13 +1941,14 @@ class VCGen:
             v, t = s.coerce(v, t, rt)
         st.env['result'] = (v, t)
         br = c.get('before_return')
+        proved_hints = []
         if br:      # a chain of intermediate assertions: each proved (with its lemma instances), then assumed
-            proved_hints = []
             for k, h in enumerate(br.get('hints', [])):
                 t2 = st.clone()
                 iso = br.get('isolate', {}).get(k)
                 if iso is not None:      # prove this step from the named earlier steps only (fewer hypotheses is always sound)
-                    t2.pc = [h0 for h0 in st.pc if not _has_quant(h0)] + [proved_hints[j] for j in iso]
+                    wf_ids = s.__dict__.get('_wf_ids', set())
+                    t2.pc = [h0 for h0 in st.pc if not _has_quant(h0) or h0.get_id() in wf_ids] + [proved_hints[j] for j in iso]
                 for u in br.get('use', {}).get(k, []):
                     s.use_lemma(t2, u)
                 s.oblige(t2, f'hint-return#{k}', s.spec_eval(h, t2, 1), line, 'hint')
@@ -1955,6 +1966,10 @@ class VCGen:
                     continue            # the instance mentions a ghost that does not exist on this (early) return path: not used
                 extra += t2.pc[len(st.pc):]
             s.oblige(st, f'post#{k}', s.spec_eval(post, st, 1), line, 'post', extra=extra)
+            if br and br.get('hints'):
+                # tried first from a small context: quantifier-free facts, list well-formedness and the proved chain of assertions
+                wf_ids = s.__dict__.get('_wf_ids', set())
+                s.obligs[-1].small = [h0 for h0 in st.pc if not _has_quant(h0) or h0.get_id() in wf_ids or any(h0.eq(p_) for p_ in proved_hints)]
         s.frame_obligations(st, line, 'ret')
 
     def frame_obligations(s, st, line, tag):
